@@ -16,9 +16,9 @@ from core import enc_bool, enc_str, enc_str_list
 PROPERTY = "C20"
 
 # CODE VARIANT FLAGS  (the value that matches today's code in /repo; see Model/Theme.lean, Model/ConfigParser.lean)
-CTX_IGNORES_INHERIT = 1  # F14: ThemeContext.__enter__ calls push_theme(self.theme) without inherit=self.inherit
+CTX_IGNORES_INHERIT = 0  # F14: ThemeContext.__enter__ calls push_theme(self.theme) without inherit=self.inherit
 CFG_LOWER = 1  # Theme.from_file uses ConfigParser() with optionxform = str.lower
-CFG_INTERP = 1  # F15: Theme.from_file uses ConfigParser() with BasicInterpolation ('%' is special)
+CFG_INTERP = 0  # F15: Theme.from_file uses ConfigParser() with BasicInterpolation ('%' is special)
 
 
 class UserErr(Exception):
@@ -420,7 +420,7 @@ def _sh(r):
 # ------------------------------------------------------------------ config round trip
 SAFE_NAMES = ["a", "warning", "repr.str", "a b", "x-y_z", "b", "rem x", "bar.back", "a.b.c", "0", "on", "none"]
 NONASCII_SAFE = ["é", "ß", "名前", "a\x0cb"]
-UPPER_NAMES = ["Foo", "REM", "É", "aB", "A"]
+UPPER_NAMES = ["A", "Foo", "REM", "aB", "É"]
 HOSTILE_NAMES = [" a", "a ", "a:b", "a=b", "#a", ";a", "[a]", "", "a\nb", "a\t", "[x", "a\x1f"]
 
 
@@ -449,6 +449,27 @@ def style_space(rng):
         return Style(color=rng.choice(colors), bgcolor=rng.choice(colors), link=rng.choice(links), **kw)
 
     return one
+
+
+def classify_roundtrip_failure(styles, want, t2, ans):
+    """narrow classifiers: the failure must be *explained* by the defect, not merely co-occur with its trigger"""
+    has_pct = any("%" in str(v) for v in styles.values())
+    case_changes = any(n != n.lower() for n in styles)
+    if t2 is None:
+        if ans.startswith("err:Interpolation") and has_pct:
+            return "config-percent-interpolation"
+        if ans == "err:DuplicateOptionError" and len({n.lower() for n in styles}) < len(styles):
+            return "config-name-case"
+        return None
+    lowered = {k.lower(): v for k, v in want.items()}
+    if case_changes and len(lowered) == len(want) and t2.styles == lowered:
+        return "config-name-case"  # exactly the lower-cased names, nothing else differs
+    for ref in (want, lowered if len(lowered) == len(want) else want):
+        if set(t2.styles) == set(ref):
+            diff = [k for k in ref if t2.styles[k] != ref[k]]
+            if diff and all("%" in str(ref[k]) for k in diff):
+                return "config-percent-interpolation"  # only values containing '%' changed
+    return None
 
 
 def real_cfg_items(text):
@@ -792,10 +813,7 @@ def run(ctx):
             ok = t2 is not None and t2.styles == want
             finding = None
             if not ok:
-                if any("%" in str(v) for v in theme.styles.values()):
-                    finding = "config-percent-interpolation"
-                elif any(n != n.lower() for n in theme.styles):
-                    finding = "config-name-case"
+                finding = classify_roundtrip_failure(theme.styles, want, t2, ans)
             shown = {k: str(v) for k, v in theme.styles.items()}
             ctx.check(ok, "Theme.from_file(Theme.config)", (shown, inherit),
                       f"reading back the config gives {ans[:60] if t2 is None else 'different styles: ' + repr({k: str(v) for k, v in t2.styles.items() if want.get(k) != v} or sorted(set(want) - set(t2.styles)))[:200]}",
@@ -806,10 +824,14 @@ def run(ctx):
     pieces = ["[styles]", "a = red", "A=bold", "x : dim", "# c", "; c", "", "  ", " b = red", "\tc = red", "[other]", "k = link 100%",
               "k = link %%", "k = link %(a)s", "novalue", "= red", "[]", "[styles]]", "a = b = c", "a : on = c", "a = red  ", "a\t=\tred",
               "q\x1f= red", "[styles] ", " [styles]", "B = zzz", "é = red", "É = red", "[styles", "b=not", "a =", "c = none", "[ styles ]", "#[styles]", "a = red # no"]
+    outside = {" b = red", "\tc = red", "[other]", "k = link %(a)s", " [styles]", "[ styles ]", "é = red", "É = red"}
+    modelled_pieces = [p_ for p_ in pieces if p_ not in outside]
     n_txt = 1500 if ctx.quick else 40000
     for i in range(n_txt):
         k = rng.randint(0, 5)
-        lines = [rng.choice(pieces) for _ in range(k)]
+        # mostly lines inside the modelled subset of configparser; the rest (indentation, other sections, references,
+        # non-ASCII names) makes the model answer `unmodelled`
+        lines = [rng.choice(pieces if rng.random() < 0.04 else modelled_pieces) for _ in range(k)]
         if rng.random() < 0.7:
             lines.insert(0, "[styles]")
         text = "\n".join(lines) + ("\n" if rng.random() < 0.5 else "")
